@@ -199,7 +199,7 @@ class Split:
 def main(tier, seed):
     run = core.Run("C13", tier, seed, "translation_validation")
     core.setup_impl_import()
-    ass = core.standard_proof_phase(run, "C13", None, "PV.Props.C13", extra_targets=["theories/Valid/Diff.vo"])
+    ass = core.standard_proof_phase(run, "C13", gen.gen_skeletons, "PV.Props.C13", extra_targets=["theories/Valid/Diff.vo"])
     rng = run.rng
     n = 40 if tier == "quick" else 500
     splits = []
